@@ -159,19 +159,17 @@ impl BytecodeInterpreter {
                 // expression in floating point can lead to a different rational, e.g.
                 // `(m^2)^(0.1+0.2)` would get the unit m^(2251799813685248/3752999689475413)
                 // while its type is Length^(3/5).
-                let exact_exponent = if *operator == BinaryOperator::Power
-                    && !lhs.get_type_scheme().is_scalar()
-                {
-                    evaluate_const_expr(rhs)
-                        .ok()
-                        .and_then(|exponent| num_traits::ToPrimitive::to_f64(&exponent))
-                } else {
-                    None
-                };
+                let exact_exponent =
+                    if *operator == BinaryOperator::Power && !lhs.get_type_scheme().is_scalar() {
+                        evaluate_const_expr(rhs)
+                            .ok()
+                            .and_then(|exponent| num_traits::ToPrimitive::to_f64(&exponent))
+                    } else {
+                        None
+                    };
                 if let Some(exponent) = exact_exponent {
                     let index = self.vm.add_constant(Constant::Scalar(exponent));
-                    self.vm
-                        .add_op1(Op::LoadConstant, index, rhs.full_span());
+                    self.vm.add_op1(Op::LoadConstant, index, rhs.full_span());
                 } else {
                     self.compile_expression(rhs);
                 }
